@@ -463,10 +463,27 @@ package action
 // renderResources (template rendering, post-renderers, manifest sorting) is not under contract; the one
 // fact its callers need here is that the hook list it returns has no nil entry (manifestFile.sort only
 // appends &release.Hook{...} literals). Trusted.
+// sortedKeys: the keys of the rendered-files map in ascending order (what makes the notes text and the
+// parse-error dump a function of the map, not of its iteration order — C05)
+//@ func sortedKeys
+//@   props C05
+//@   ensures [ascending] forall a, b int :: 0 <= a && a < b && b < len(result) ==> result[a] <= result[b]
+//@   ensures [every-key-listed] forall k string :: has(m, k) ==> (exists j int :: 0 <= j && j < len(result) && result[j] == k)
+//@   ensures [only-keys-listed] forall j int :: 0 <= j && j < len(result) ==> has(m, result[j])
+//@   ensures [a-list-of-its-own] len(result) == 0 || fresh(result)
+//@   loop 1 invariant [a-list-of-its-own] len(keys) == 0 || fresh(keys)
+//@   loop 1 invariant [done-keys-listed] forall k string :: #done[k] ==> (exists j int :: 0 <= j && j < len(keys) && keys[j] == k)
+//@   loop 1 invariant [only-keys-listed] forall j int :: 0 <= j && j < len(keys) ==> has(m, keys[j])
+
 //@ func (*Configuration).renderResources
-//@   props C03
-//@   trusted
+//@   props C03 C05 C08
+//@   requires cfg != nil && ch != nil
 //@   ensures [hooks-non-nil] hooksNonNil(result0)
+//@   loop 1 invariant [notes-in-path-order] [C05] forall a, b int :: 0 <= a && a < b && b < len(#range) ==> #range[a] <= #range[b]
+//@   loop 1 invariant [notes-taken-out] forall k string :: has(files, k) && strings.HasSuffix(k, "NOTES.txt") ==> (exists j int :: #iter <= j && j < len(#range) && #range[j] == k)
+//@   loop 2 invariant [dump-in-path-order] [C05] forall a, b int :: 0 <= a && a < b && b < len(#range) ==> #range[a] <= #range[b]
+//@   assert [notes-never-applied] [C08] at "releaseutil.SortManifests(files" forall k string :: has(files, k) ==> !strings.HasSuffix(k, "NOTES.txt")
+//@   assert [manifest-in-install-order] [C08] at "releaseutil.SortManifests(files" err == nil ==> (forall a, b int :: 0 <= a && a < b && b < len(manifests) ==> !kindBefore(manifests[b].Head.Kind, manifests[a].Head.Kind, releaseutil.InstallOrder))
 
 // ---- C17: install/upgrade/pull with --verify: the chart path handed back was verified against the
 // configured keyring (local file: VerifyChart; remote: the downloader with VerifyAlways)
